@@ -204,7 +204,7 @@ Definition enc_numcol (w:Z) (miss:option N) (c:choice) (vals:list N) : result bi
     let mn := (mn0 - c_r0off c)%N in
     let span := (maxl present p0 - mn)%N in
     let nb := (nbits_inc span + N.of_nat (c_extra c))%N in
-    if (Z.to_N w <? nb)%N || (63 <? nb)%N then Err TypeErr else
+    if (match miss with Some _ => (Z.to_N w <? nb)%N | None => false end) || (63 <? nb)%N then Err TypeErr else
     let nbn := N.to_nat nb in
     Ok (enc_n wn mn ++ enc_n 6 nb ++
         flat_map (fun v => enc_n nbn (match miss with
@@ -232,7 +232,7 @@ Definition dec_numcol (w:Z) (miss:option N) (nsub:nat) (l:bits) : result (list N
     | None => Err TypeErr
     | Some (nb, l2) =>
       if N.eqb nb 0 then Ok (repeat r0 nsub, l2)
-      else if (Z.to_N w <? nb)%N then Err Reject
+      else if (match miss with Some _ => (Z.to_N w <? nb)%N | None => false end) then Err Reject
       else match dec_incs nsub (N.to_nat nb) r0 miss l2 with Some r => Ok r | None => Err TypeErr end
     end
   end.
